@@ -14,6 +14,7 @@
 //
 // The library RNG is the subject here, so it is seeded explicitly inside each case with dsplib::rng(int).
 #include "kit/num.h"
+#include "kit/prelude.h"
 #include <dsplib.h>
 
 #include <climits>
@@ -391,6 +392,10 @@ static void meas_check(const Json& c, Out& o) {
     const bool aliased = amode != 0;
     const std::string what = fmt("len=%d f0=%.9g (%.3f bins) %d harmonics, %s, %s, A=%.3g", len, f0, f0 * len, h, bin_name(binmode), amode_name(amode), A);
 
+    // unrelated calls of related size first (windows of the record's length with other parameters, transforms ...): see kit/prelude.h
+    const uint64_t pre = c.has("pre") ? c.getu("pre") : 0;
+    vk::prelude(pre, len);
+    if (pre) o.label("prelude:unrelated calls of related size before the measurement");
     const dl::ThdRes t = dl::thd(x, ncomp, aliased);
     const double sn = dl::sinad(x);
     const double sr = dl::snr(x, ncomp, aliased);
@@ -421,6 +426,7 @@ static void meas_check(const Json& c, Out& o) {
     const double cs = scls == 0 ? std::ldexp(1.0, r.range(-13, 13)) : std::pow(10.0, r.uni(-2, 2));
     dl::arr_real xs(len);
     for (int i = 0; i < len; ++i) xs[i] = x[i] * cs;
+    vk::prelude(pre ? pre + 1 : 0, len);
     const dl::ThdRes t2 = dl::thd(xs, ncomp, aliased);
     const double sn2 = dl::sinad(xs);
     const double sr2 = dl::snr(xs, ncomp, aliased);
@@ -476,7 +482,7 @@ static void meas_gen(Ctx& ctx) {
         if (lc == 0) len = 1 << pick(11, 17);
         else if (lc == 1) { len = (1 << pick(11, 17)) + (flip() ? 1 : -1); if (len < 2048) len = 2049; if (len > 131072) len = 131071; }
         else len = pick_log(2048, 131072);
-        return Json::object().set("len", len).set("h", pick(1, 5)).set("bin", pick(0, 2)).set("amode", pick(0, 2)).set("scale", pick(0, 1)).set("seed", (long long)seed64());
+        return Json::object().set("len", len).set("h", pick(1, 5)).set("bin", pick(0, 2)).set("amode", pick(0, 2)).set("scale", pick(0, 1)).set("pre", pick(0, 2) == 0 ? (long long)(1 + pick64(0, 1ll << 40)) : 0LL).set("seed", (long long)seed64());
     });
 }
 
